@@ -2,7 +2,11 @@
 ;; against the real package in the thorough tier).
 (declare-fun utf8_r ((Array Int Int) Int Int) Int)   ; rune decoded at offset o of a string with n bytes left
 (declare-fun utf8_w ((Array Int Int) Int Int) Int)   ; its width
-(declare-fun utf8_len (Int) Int)                      ; encoded length of a rune
+(define-fun utf8_len ((r Int)) Int                     ; encoded length of a rune, as utf8.EncodeRune writes it
+  (ite (and (<= 0 r) (< r 128)) 1
+  (ite (and (<= 128 r) (< r 2048)) 2
+  (ite (or (< r 0) (> r 1114111) (and (<= 55296 r) (<= r 57343))) 3   ; invalid runes are written as U+FFFD
+  (ite (< r 65536) 3 4)))))
 (declare-fun utf8_enc (Int Int) Int)                  ; i-th byte of the encoding
 (declare-fun validUTF8 ((Array Int Int) Int Int) Bool)
 (define-fun utf8_RuneError () Int 65533)
